@@ -604,3 +604,100 @@ def validate_traces_generic(specdir, module, cfg, traces, stats, verdict, subjec
                                            for e in tr["ev"][:p["l"]]]})
     stats.traces_accepted += accepted
     return accepted
+
+
+# ---------------------------------------------------------------- spec-guided random walks
+
+import random as _random
+
+
+def _walk_worker(i):
+    graph, adapter, n_walks, length, seed, nproc = _PAR["walk"]
+    v = Verdict("par", "par", 0)
+    v.findings.entries = []
+    v.collect_all = True
+    s = Stats()
+    rng = _random.Random(seed * 1000003 + i)
+    adapter_match = adapter.match
+    for w in range(i, n_walks, nproc):
+        cur = rng.choice(graph.inits)
+        hist = []
+
+        def run():
+            nonlocal cur
+            obj = adapter.fresh(graph.states[cur])
+            for _ in range(length):
+                oks = graph.out.get(cur)
+                if not oks:
+                    return
+                ok = rng.choice(oks)
+                op = graph.ops[ok]
+                vs = adapter.variants(op)
+                if not vs:
+                    continue
+                variant = rng.choice(vs)
+                outs = graph.groups[(cur, ok)]
+                adapter.cur_f_obs = graph.obs.get(cur)
+                obj, got = adapter.step(obj, op, variant)
+                obs = adapter.observe(obj, got)
+                s.edges_executed += 1
+                hist.append(dict(op, _variant=variant))
+                why = None
+                nxt = None
+                for (o, tk) in outs:
+                    w_ = adapter_match(got, o)
+                    if w_ is None:
+                        for j, ob in enumerate(got.get("also_t", [])):
+                            d = first_diff(ob, graph.obs[tk])
+                            if d:
+                                w_ = "also_t[%d].%s" % (j, d)
+                                break
+                    if w_ is None:
+                        for j, ob in enumerate(got.get("also_f", [])):
+                            d = first_diff(ob, graph.obs[cur])
+                            if d:
+                                w_ = "also_f[%d].%s" % (j, d)
+                                break
+                    if w_ is None:
+                        w_ = adapter.compare(obs, graph.obs[tk], graph.states[tk])
+                    if w_ is None:
+                        nxt = tk
+                        break
+                    why = why or w_
+                if nxt is None:
+                    sig = {"subject": adapter.subject, "op": op.get("op"), "variant": variant, "what": why, "mode": "walk"}
+                    v.fail(sig, {"concretisation": adapter.name, "walk_history": list(hist), "source_state": graph.states[cur],
+                                 "expected": [{"outcome": o, "obs": graph.obs[tk]} for o, tk in outs][:3],
+                                 "observed": {"outcome": got, "obs": obs}})
+                    return
+                cur = nxt
+        try:
+            with_timeout(run, 30.0)
+        except Hang:
+            v.fail({"subject": adapter.subject, "op": hist[-1].get("op") if hist else None, "what": "timeout", "mode": "walk"},
+                   {"walk_history": list(hist)})
+        except MachineryError as ex:
+            return ("machinery", str(ex))
+    return ("ok", v.raw, s.edges_executed, set(), [], {})
+
+
+def replay_walks(graph, adapter, verdict, stats, n_walks=400, length=25, seed=0, nproc=None):
+    """Random walks through the exported graph executed on ONE object per walk, checking the
+    result and all observations after every step: histories that revisit abstract states,
+    which fresh-object shortest-path replay cannot reach (hidden implementation state)."""
+    import multiprocessing as mp
+    nproc = nproc or NCPU
+    _PAR["walk"] = (graph, adapter, n_walks, length, seed, nproc)
+    with mp.get_context("fork").Pool(nproc) as pool:
+        res = pool.map(_walk_worker, range(nproc))
+    total = 0
+    for r in res:
+        if r[0] == "machinery":
+            raise MachineryError(r[1])
+        for sig, case in r[1]:
+            verdict.fail(sig, case)
+        total += r[2]
+    stats.edges_executed += total
+    stats.extra["walk_steps_executed"] = stats.extra.get("walk_steps_executed", 0) + total
+    stats.extra["walks"] = stats.extra.get("walks", 0) + n_walks
+    return total
